@@ -134,6 +134,15 @@ def oracle(policy, actions, recs, snap):
                             f'{group_cr} before any stop condition (log {log})'))
             if any(o.startswith('jx') for o in rec['obs']):
                 exited_at = idx
+                # "on stopping, all members still running are cancelled" also covers members
+                # added while join was stopping: none may be left running un-cancelled when it
+                # returns
+                crs_all = {o for r in recs[:idx + 1] for o in r['obs'] if o.startswith('cr')}
+                left = [i for i in present if i not in done and f'cr{i}' not in crs_all]
+                if left:
+                    bad.append(('c10:returned-leaving-uncancelled-members',
+                                f'policy {policy}: join returned at step {idx} {a} while members '
+                                f'{left} are still running and were never cancelled'))
                 if stopped_at is None and not body_raised:
                     bad.append(('c10:join-returned-early',
                                 f'policy {policy}: join returned at step {idx} though no stop '
